@@ -54,6 +54,59 @@ def job_lines(rng, n):
     return out
 
 
+def project(trace):
+    """A recorded execution in SenderImpl's vocabulary: line numbers, command indices, reply kinds."""
+    job = [bytes(x).decode() for x in trace["job"]]
+    ev = []
+    for e in trace["ev"]:
+        t = bytes(e["text"]).decode("ascii", "replace").strip()
+        if e["k"] == "tx":
+            try:
+                body = t.rsplit("*", 1)[0]
+                head, cmd = body.split(" ", 1)
+                n = int(head[1:])
+                c = 0 if cmd.startswith("M110") else job.index(cmd) + 1
+            except (ValueError, IndexError):
+                return None
+            ev.append({"k": "tx", "n": n, "cmd": c, "bad": bool(e["bad"]), "kind": ""})
+        elif e["k"] == "rel":
+            if t == "ok":
+                ev.append({"k": "rel", "n": 0, "cmd": 0, "bad": False, "kind": "ok"})
+            elif t.startswith("Resend:"):
+                ev.append({"k": "rel", "n": int(t.split(":")[1]), "cmd": 0, "bad": False, "kind": "resend"})
+            else:
+                return None
+        elif e["k"] == "end":
+            ev.append({"k": "end", "n": 0, "cmd": 0, "bad": False, "kind": ""})
+    if len(set(job)) != len(job):
+        return None
+    return {"nlines": len(job), "ev": ev}
+
+
+def impl_conformance(traces):
+    """How many recorded executions are behaviours of SenderImpl (firmware steps inferred by TLC)?"""
+    import os
+    from .common import workdir, write_json
+    groups = {}
+    for i, t in enumerate(traces):
+        p = project(t)
+        if p is not None and p["nlines"] >= 1:
+            groups.setdefault(p["nlines"], []).append((i, p))
+    accepted, total, rejected = 0, 0, []
+    for n, items in sorted(groups.items()):
+        path = os.path.join(workdir(), "implconf_%d.json" % n)
+        write_json(path, [p for _, p in items])
+        cfg = "SPECIFICATION TSpec\nCONSTANTS\n NLines = %d\n MaxCorrupt = 99\n" % n
+        r = tlc.validate("SenderImplTrace", cfg, path, tag="implconf")
+        if r.errors:
+            raise flow.MachineryError("SenderImplTrace failed: %s\n%s" % (r.errors[:2], r.stdout[-1500:]))
+        ok = {t[1] for t in r.tuples if t and t[0] == "A"}
+        total += len(items)
+        accepted += len(ok)
+        rejected += [items[k - 1][0] for k in range(1, len(items) + 1) if k not in ok]
+    return accepted, total, rejected
+
+
 class P(flow.Plan):
     pid = "C15"
     clauses = ["C15_Frame", "C15_Text", "C15_First", "C15_Resend", "C15_Complete", "C15_NoDup", "H_Replies"]
@@ -90,6 +143,21 @@ class P(flow.Plan):
         for t in traces:
             t["meta"]["driver"] = "tlc-behaviour"
         return traces, inputs, {}
+
+    def post(self, traces, inputs):
+        acc, tot, rej = impl_conformance(traces)
+        # the binding is live: one corrupted field must make TLC reject the trace
+        import copy as _c
+        bad = _c.deepcopy(traces[0])
+        k = [i for i, e in enumerate(bad["ev"]) if e["k"] == "tx"][1]
+        t = bytes(bad["ev"][k]["text"]).decode()
+        bad["ev"][k]["text"] = list(t.replace("N0 ", "N7 ", 1).encode())
+        a2, t2, _ = impl_conformance([bad])
+        if t2 == 1 and a2 == 1:
+            raise flow.MachineryError("SenderImplTrace accepted a trace with a corrupted line number")
+        return {"impl_level_traces_accepted_by_SenderImpl": acc, "impl_level_traces_checked": tot,
+                "impl_level_corrupted_trace_rejected": t2 == 1 and a2 == 0,
+                "drift_count": tot - acc, "drift_notes": [{"trace": i, "schedule": inputs[i]} for i in rej[:3]]}
 
     def executions(self, tier, sd):
         n = 300 if tier == "thorough" else 60
